@@ -653,6 +653,25 @@ pub struct Rechunk<B> {
     pend_budget: u8,
     pub stats: Arc<RechunkStats>,
     max_piece: usize,
+    /// peer behaviour: re-encode `-bin` trailer values with '=' padding
+    pub pad_bin: bool,
+    pub trailers_tap: Option<Arc<Mutex<Vec<http::HeaderMap>>>>,
+}
+
+/// What a padding peer does to binary metadata: same bytes, padded base64.
+pub fn repad_bin(h: &mut http::HeaderMap) {
+    let keys: Vec<http::HeaderName> = h.keys().filter(|k| k.as_str().ends_with("-bin")).cloned().collect();
+    for k in keys {
+        let vals: Vec<Vec<u8>> = h.get_all(&k).iter().map(|v| v.as_bytes().to_vec()).collect();
+        h.remove(&k);
+        for v in vals {
+            let nv = match crate::refc::b64_decode(&v) {
+                Some(d) => crate::refc::b64_encode(&d, true).into_bytes(),
+                None => v,
+            };
+            h.append(k.clone(), http::HeaderValue::from_bytes(&nv).unwrap());
+        }
+    }
 }
 
 #[derive(Default, Debug)]
@@ -665,7 +684,7 @@ pub struct RechunkStats {
 
 impl<B: Body<Data = Bytes>> Rechunk<B> {
     pub fn new(inner: B, rng: Rng, stats: Arc<RechunkStats>, max_piece: usize) -> Self {
-        Rechunk { inner: Box::pin(inner), rng, carry: Vec::new(), queue: Default::default(), inner_done: false, pend_budget: 0, stats, max_piece }
+        Rechunk { inner: Box::pin(inner), rng, carry: Vec::new(), queue: Default::default(), inner_done: false, pend_budget: 0, stats, max_piece, pad_bin: false, trailers_tap: None }
     }
     fn enqueue_data(&mut self, mut data: Vec<u8>) {
         // cut into pieces; maybe keep the last piece as carry (merged with the next frame)
@@ -743,7 +762,14 @@ where
                         this.enqueue_data(v);
                     } else {
                         this.flush_carry();
-                        this.queue.push_back(f.map_data(|_| Bytes::new()));
+                        let mut t = f.into_trailers().ok().unwrap();
+                        if let Some(tap) = &this.trailers_tap {
+                            tap.lock().unwrap().push(t.clone());
+                        }
+                        if this.pad_bin {
+                            repad_bin(&mut t);
+                        }
+                        this.queue.push_back(Frame::trailers(t));
                     }
                 }
             }
@@ -763,11 +789,14 @@ pub struct Loopback<S> {
     /// record the last request head seen (method, version, uri, headers)
     pub tap: Arc<Mutex<Vec<http::request::Parts>>>,
     pub resp_tap: Arc<Mutex<Vec<http::response::Parts>>>,
+    pub trailers_tap: Arc<Mutex<Vec<http::HeaderMap>>>,
+    /// the "network peer" re-pads binary metadata in both directions (after the taps)
+    pub pad_bin: bool,
 }
 
 impl<S> Loopback<S> {
     pub fn new(svc: S, seed: u64, max_piece: usize) -> Self {
-        Loopback { svc, seed, counter: Arc::new(AtomicU64::new(0)), stats: Arc::new(RechunkStats::default()), max_piece, tap: Default::default(), resp_tap: Default::default() }
+        Loopback { svc, seed, counter: Arc::new(AtomicU64::new(0)), stats: Arc::new(RechunkStats::default()), max_piece, tap: Default::default(), resp_tap: Default::default(), trailers_tap: Default::default(), pad_bin: false }
     }
 }
 
@@ -788,7 +817,7 @@ where
         let n = self.counter.fetch_add(1, Ordering::SeqCst);
         let r1 = Rng::new(self.seed ^ (n.wrapping_mul(0x9E37_79B9)));
         let r2 = Rng::new(self.seed.rotate_left(13) ^ n);
-        let (parts, body) = req.into_parts();
+        let (mut parts, body) = req.into_parts();
         {
             let mut p = http::Request::new(()).into_parts().0;
             p.method = parts.method.clone();
@@ -797,14 +826,19 @@ where
             p.headers = parts.headers.clone();
             self.tap.lock().unwrap().push(p);
         }
+        if self.pad_bin {
+            repad_bin(&mut parts.headers);
+        }
         let req = http::Request::from_parts(parts, Rechunk::new(body, r1, self.stats.clone(), self.max_piece));
         let fut = self.svc.call(req);
         let stats = self.stats.clone();
         let mp = self.max_piece;
         let rtap = self.resp_tap.clone();
+        let ttap = self.trailers_tap.clone();
+        let pad = self.pad_bin;
         Box::pin(async move {
             let resp = fut.await?;
-            let (parts, body) = resp.into_parts();
+            let (mut parts, body) = resp.into_parts();
             {
                 let mut p = http::Response::new(()).into_parts().0;
                 p.status = parts.status;
@@ -812,7 +846,13 @@ where
                 p.headers = parts.headers.clone();
                 rtap.lock().unwrap().push(p);
             }
-            Ok(http::Response::from_parts(parts, Rechunk::new(body, r2, stats, mp)))
+            if pad {
+                repad_bin(&mut parts.headers);
+            }
+            let mut rb = Rechunk::new(body, r2, stats, mp);
+            rb.pad_bin = pad;
+            rb.trailers_tap = Some(ttap);
+            Ok(http::Response::from_parts(parts, rb))
         })
     }
 }
